@@ -50,6 +50,10 @@ CHECKS = {
         text="Lean theorems about the reference semantics atomSem/evalPy of the built-in atoms over a concrete universe of Python values (none/bool/int/float-halves/str/list/tuple/set/dict/opaque objects), for every parameter and value: opposites complementary and defined together, eq = Python == across the numeric tower, in = membership up to == with the hashability TypeError, ge/gt/le/lt = four readings of one three-way comparison (cross-type raises TypeError), the four ranges = conjunction of the one-sided atoms with their strictness, exact behaviour at the bounds, subset family = inclusion up to == with real-subset differing exactly at equality, isinstance lattice, empty/truthy/has_length/has_key, literal regex = prefix, ASCII str tests, tuple_of/set_of/list_of/iterable_of. Tie: every exported atom constructor on a parameter grid x inputs (57 420 quick / 905 576 thorough): implementation outcome incl. exception class == evalPy, and == an independent plain-Python definition of the named relation; plus the opposite/nesting laws on the real objects.",
         note=TB + "The model is a specification; the theorems are laws of it, their force for the classes is the correspondence. Not modelled (implementation vs plain Python only): ipaddress properties (PropertyPredicate is modelled as the wrapper), Unicode classification, non-literal regular expressions, datetime/UUID/complex/range/frozenset/bytes/inf/nan/big-int inputs. Floats are multiples of 1/2; model strings are ASCII.",
         tech="Lean 4 proof (case analysis, nested induction over values for ==/order lemmas) + differential correspondence (evalpy) + plain-Python oracle", ref="§7 C08, §4.1 M2, §10"),
+    "C20": dict(
+        text="Lean theorems about a model of main.py composed from the C14 (parser), C01 (optimizer), C15 (truth table) and C18 (to_json) models: text of the language prints exactly the header (distinct names, sorted) and 2^k rows in ascending binary order whose last column is the value of the expression (C20_table and 7 corollaries, via C15_table_spec on a heap with one object per leaf), the table and JSON texts determine names/rows/tree (decoders with round-trip theorems, so a flipped bit or swapped column is visible in the text), re-association of equal operators does not change the table; with -o the output is that of the optimised predicate, which has the Boolean function of the expression over every extension of each printed row (C20_optimized_same_function for configurations without a known-bad arm, C20_optimized_partial_impl for the code as it is when no quirk fired, decide-witnesses reaching KF-xorOr / KF-xorNotAnd through -o) and -o always answers (C20_optimize_answers, from the termination theorem of C12); rejected text prints nothing on stdout (C20_rejects, three observable classes); 39 theorems. Tie: main.app through typer's CliRunner on ~21 000 (quick) / ~145 000 (thorough) invocations x {table, json} x {-o off, on} compared byte for byte (stdout, exit status, stderr class) with the compiled model, 100 / 1 000 of them as real subprocesses, the Lean decoders on the real stdout, and an independent judge (own tokenizer/parser/evaluator) on every real output.",
+        note=TB + "Observed, not modelled: lark (its bracketing of equal-operator chains is read from its own tree and checked with the Lean relation sameModAssoc && isReading), click/typer (help and usage-error texts matched as classes), json.dumps, stdout. The dot command is outside the property. Open defects KF-xorNotAnd / KF-xorOr are reached through -o and reported as KNOWN-FINDING.",
+        tech="Lean 4 proof (composition of the C14/C01/C15/C18/C12 theorems, decoders with round-trip proofs, decide +kernel witnesses) + differential correspondence in-process and as subprocess + independent property oracle", ref="§7 C20, §12.6"),
     "C14": dict(
         text="Lean theorems about an executable model of the lexer and of a reference precedence parser: the model accepts exactly the expression language (C14_accepts_iff_language: soundness, completeness for the ambiguous grammar by re-bracketing, a scanner characterisation, rejection lemmas); its tree is a faithful reading (C14_reading_inorder, C14_not_scope, C14_group_subtree, C14_parse_faithful); every tree has an accepted text (C14_parse_print_text); the lexer returns ts exactly for the texts that spell ts (C14_lex_iff_spells); 59 theorems. Lark's Earley engine is NOT modelled: the claim about parse_expression is that on every run it agrees with the model on accept/reject and, for each accepted text, that the Lean-defined relation isReading && isTight (proved to decide Reading and to imply Faithful) holds of the tree the implementation actually returned - on all in-language token sequences up to 7/9 tokens in three spacings, mutants, malformed and random texts, all fully parenthesised trees <= 6/7 nodes and random long expressions (46 606 / 439 605 texts).",
         note=TB + "Observed, not modelled: Lark's Earley parser, dynamic lexer and ambiguity resolution (lark 1.3.1). The model pins the precedence Lark produces (| < & < ^ < ~) and is compared modulo re-association of equal operators, because Lark does not bracket chains uniformly and the property leaves this open. 'Parse error' = lark UnexpectedInput/ParseError/LexError; VisitError is a failure. Inputs beyond the bound are not covered ('~'*300+'a' raises RecursionError).",
@@ -102,7 +106,7 @@ def main():
             na.append({"property_id": pid, "reason": PENDING.get(pid, "check not built yet at this commit (work in progress; see DESIGN.md §7 for the plan)")})
     man = {
         "version": 1,
-        "setup_cmd": "cd lean && lake build PyPred driver driver_tt driver_pyval driver_construct driver_scope driver_parser driver_dot driver_cost",
+        "setup_cmd": "cd lean && lake build PyPred driver driver_tt driver_pyval driver_construct driver_scope driver_parser driver_dot driver_cost driver_cli",
         "hooks": {
             "guard": "PY_PREDICATE_VERIF",
             "enable": "no source hooks are needed: the checks import /repo in-process and instrument from outside (sys.settrace, monkey-patching inside the harness process); the variable is set by ./check for future use",
